@@ -1,73 +1,5 @@
-// S3 contracts of vec_znx_rotate_ref / vec_znx_automorphism_ref (C09, C08, C13): per-limb dispatch on pointer equality
-// between the in-place and out-of-place kernels, zero extension, padding.  Kernels replaced by contracts: the
-// out-of-place ones are proved (rot.c); the in-place ones are ASSUMED here with the same ring-map post and backed
-// only by the bounded S4 equivalence runs (rot_inplace.c) -- listed as such in the evidence.
-#include "vec_shape.h"
-void znx_rotate_i64(uint64_t nn, int64_t p, int64_t* res, const int64_t* in);
-void znx_automorphism_i64(uint64_t nn, int64_t p, int64_t* res, const int64_t* in);
-void znx_rotate_inplace_i64(uint64_t nn, int64_t p, int64_t* res);
-void znx_automorphism_inplace_i64(uint64_t nn, int64_t p, int64_t* res);
-
-#define ROT_S(t, p, nn) (((uint64_t)(t) - (uint64_t)(p)) & (2 * (nn)-1))
-#define SGNV(c, v) ((c) ? (v) : WNEG(v))
-#ifdef NO_AUT_REL
-#define AUT_REL_K 1
-#else
-#define AUT_REL_K (AUT_REL(p, nn))
-#endif
-#define REQ_K IS_POW2(nn) && nn <= MAXN && G < nn && p > INT64_MIN
-
-// same text as rot.c (kept in sync by tools/contract_sync.py): out-of-place kernels
-void znx_rotate__c(uint64_t nn, int64_t p, int64_t* res, const int64_t* in)
-__CPROVER_requires(REQ_K)
-__CPROVER_requires(__CPROVER_is_fresh(res, nn * 8) && __CPROVER_is_fresh(in, nn * 8))
-__CPROVER_assigns(__CPROVER_object_upto(res, nn * 8))
-__CPROVER_ensures(res[G] == SGNV(ROT_S(G, p, nn) < nn, in[ROT_S(G, p, nn) & (nn - 1)]))
-;
-void znx_automorphism__c(uint64_t nn, int64_t p, int64_t* res, const int64_t* in)
-__CPROVER_requires(REQ_K && (p & 1) == 1 && AUT_REL_K)
-__CPROVER_requires(__CPROVER_is_fresh(res, nn * 8) && __CPROVER_is_fresh(in, nn * 8))
-__CPROVER_assigns(__CPROVER_object_upto(res, nn * 8))
-__CPROVER_ensures(res[GT & (nn - 1)] == SGNV(GT < nn, in[G]))
-;
-// in-place kernels: ASSUMED contracts (bounded evidence only)
-void znx_rotate_inplace__c(uint64_t nn, int64_t p, int64_t* res)
-__CPROVER_requires(REQ_K)
-__CPROVER_requires(__CPROVER_is_fresh(res, nn * 8))
-__CPROVER_assigns(__CPROVER_object_upto(res, nn * 8))
-__CPROVER_ensures(res[G] == SGNV(ROT_S(G, p, nn) < nn, __CPROVER_old(res[ROT_S(G, p, nn) & (nn - 1)])))
-;
-void znx_automorphism_inplace__c(uint64_t nn, int64_t p, int64_t* res)
-__CPROVER_requires(REQ_K && (p & 1) == 1 && AUT_REL_K)
-__CPROVER_requires(__CPROVER_is_fresh(res, nn * 8))
-__CPROVER_assigns(__CPROVER_object_upto(res, nn * 8))
-__CPROVER_ensures(res[GT & (nn - 1)] == SGNV(GT < nn, __CPROVER_old(res[G])))
-;
-
-#define REQ_VROT IS_POW2(NN) && p > INT64_MIN
-#if AS > 0
-#define A_AT_IDX(idx) (GL < AS ? __CPROVER_old(a[(GL < AS ? GL : 0) * a_sl + (idx)]) : 0)
-#else
-#define A_AT_IDX(idx) 0
-#endif
-void vec_znx_rotate__c(const MODULE* module, const int64_t p, int64_t* res, uint64_t res_size, uint64_t res_sl,
-                       const int64_t* a, uint64_t a_size, uint64_t a_sl)
-    __CPROVER_requires(REQ_MODULE) __CPROVER_requires(REQ_SHAPE2) __CPROVER_requires(REQ_VROT)
-    __CPROVER_requires(__CPROVER_is_fresh(res, RES_BYTES)) __CPROVER_requires(REQ_A) __CPROVER_requires(REQ_GHOST)
-    __CPROVER_assigns(__CPROVER_object_upto(res, RES_BYTES))
-    __CPROVER_ensures(RS == 0 || res[GL * res_sl + G] == SGNV(ROT_S(G, p, NN) < NN, A_AT_IDX(ROT_S(G, p, NN) & (NN - 1)))) /*@vec_rotate_limb_is_a_times_X_p:C09,C08,C13,C15*/
-    __CPROVER_ensures(ENS_PAD) /*@vec_rotate_padding:C08,C11,C18*/
-    __CPROVER_ensures(ENS_TAIL) /*@vec_rotate_tail:C08,C11,C18*/
-;
-void vec_znx_automorphism__c(const MODULE* module, const int64_t p, int64_t* res, uint64_t res_size, uint64_t res_sl,
-                             const int64_t* a, uint64_t a_size, uint64_t a_sl)
-    __CPROVER_requires(REQ_MODULE) __CPROVER_requires(REQ_SHAPE2) __CPROVER_requires(REQ_VROT && (p & 1) == 1 && AUT_REL(p, NN))
-    __CPROVER_requires(__CPROVER_is_fresh(res, RES_BYTES)) __CPROVER_requires(REQ_A) __CPROVER_requires(REQ_GHOST)
-    __CPROVER_assigns(__CPROVER_object_upto(res, RES_BYTES))
-    __CPROVER_ensures(RS == 0 || res[GL * res_sl + (GT & (NN - 1))] == SGNV(GT < NN || GL >= AS, A_AT_IDX(G))) /*@vec_automorphism_limb_is_a_of_X_p:C09,C08,C13,C15*/
-    __CPROVER_ensures(ENS_PAD) /*@vec_automorphism_padding:C08,C11,C18*/
-    __CPROVER_ensures(ENS_TAIL) /*@vec_automorphism_tail:C08,C11,C18*/
-;
+// harnesses of the vector rotate/automorphism S3 proofs (contracts in vec_rot_contracts.h)
+#include "vec_rot_contracts.h"
 #define HR(hname, fn)                                                                       \
   void hname(void) {                                                                        \
     const MODULE* module; int64_t* res; const int64_t* a; int64_t p;                         \
